@@ -20,7 +20,13 @@ def handle : Handler := fun st op j =>
     let nbits ← getNat j "nbits"
     -- the model derives the parameters itself from the regenerated tables; the declared ones
     -- (what the Go side uses) must coincide, otherwise the line is answered with a mismatch
-    let mine := match defaultSysParams nbits with
+    -- "custom": a parameter set that is in no table: derived here from the declared base lengths
+    -- with the regenerated `MakeDerivedParameters`
+    let custom := (getBool j "custom").toOption.getD false
+    let mine := if custom then
+        some (SysParams.ofBase { LePrime := declared.LePrime, Lh := declared.Lh, Lm := declared.Lm,
+                                 Ln := declared.Ln, Lstatzk := declared.Lstatzk })
+      else match defaultSysParams nbits with
       | some p => some p
       | none => if nbits = 256 then some (SysParams.ofBase toyBase) else none
     let pk : PublicKey := {
